@@ -1,33 +1,67 @@
 import BppModel.Proto
 import BppModel.Tree
+import BppModel.TreeRef
+import BppModel.Dag
+import BppModel.TreeObs
 import BppModel.Drive.C14
 /-
-Driver for C15 (TreeGraphImpl on GlobalGraph).
+Driver for C15: TreeGraphImpl on GlobalGraph (ops `t.*`), DAGraphImpl on GlobalGraph (ops `d.*`),
+AssociationTreeGraphImplObserver (ops `o.*`).
 
-Per case: `t` the model (graph + cached validity flag), `prev` the implementation's previous
-report.  Verdicts on the implementation's answer `<result> ; <raw graph> V <flag>`:
+Verdicts on the implementation's answer `<result> ; <raw state> V <flag> [R <flag>]`:
   consistent:<clause>  the reported graph violates `Consistent` (C14)
-  cache_sound          the reported flag is 1 but `isTree` of the reported graph is not true
-  valid_answer         `isValid()` answered something else than `isTree` of the reported graph
-  tree_spec            a structural query differs from the reference rooted tree (parent function
-                       recomputed from the reported edge triples), when the graph is a valid rooted tree
-  mrca_spec            `MRCA` differs from the deepest common ancestor in the reference tree
-  rootAt_spec          `rootAt(n)` on a valid tree with node n did not succeed, or the result is not a valid
-                       tree rooted at n with the same undirected edge set (same ids, same end points)
+  cache_sound          the reported validity flag is 1 but `isTree` / `isDA` of the reported graph is not true
+  valid_answer         `isValid()` answered something else than `isTree` / `isDA` of the reported graph
+  valid_iff            `isValid()` answered something else than the reference decision on the edge table
+                       (`isTreeRef`: rooted / unrooted tree spanning all nodes; `isAcyclicRef`: transitive closure)
+  tree_spec            a structural query of a valid rooted tree differs from the reference rooted tree
+                       (`Ref` read off the reported edge triples): father / sons / branches / leaves-under /
+                       subtree nodes and edges / node path / edge path
+  mrca_spec            `MRCA` is not the most recent common ancestor in the reference tree (`Ref.isMrca`)
+  rootAt_spec          `rootAt(n)` on a valid tree (rooted or not) with node n did not succeed, or the result is
+                       not a valid tree rooted at n with the same nodes and the same undirected edge set
+                       (same ids, same end points), n its only father-less node
+  terminates           the call did not return within the harness watchdog although the model answers (the harness does not
+                       make the calls on which the model itself runs out of fuel)
+  no_crash             the call killed the harness worker (sanitizer abort, stack overflow, signal)
+  rooted_cache         the reported rootedness flag of a DAG is 1 but there is not exactly one father-less node
+  keeps_object         `setFather` / `addSon` with an edge object succeeded but the object is not the one of
+                       the new link (`getEdgeLinking(father, son)`); `addSon` with a free object, two known nodes and no
+                       relation yet between them (`TW.addSonReady`) did not succeed; `setFather` with an object attached
+                       to another branch (`TW.setFatherForeign`) was not refused or changed something; the observer's maps
+                       are no longer inverse of each other / name dead ids (`obs:<clause>`, C14); `rootAt` changed an association
 -/
 namespace Bpp.Drive.C15
 open Bpp Bpp.Proto Bpp.Graph Bpp.Drive.C14
 
 structure St where
   t : T := T.empty true
+  d : D := D.empty
+  tw : TW := TW.init true
+  /-- the implementation's previous report (tree / observer mode) -/
   prev : Option T := none
+  prevW : Option TW := none
 
 def showT (t : T) : String := showGraph t.g ++ " V " ++ showBool t.valid
+def showD (d : D) : String := showGraph d.g ++ " V " ++ showBool d.valid ++ " R " ++ showBool d.rooted
+def showTW (tw : TW) : String := showWorld tw.w ++ " V " ++ showBool tw.valid
 
 def parseT (tk : List String) : Option T :=
   let (gt, rest) := takeUntil ["V"] tk
   match parseGraph gt, rest with
   | some (g, _), ["V", v] => some { g := g, valid := v == "1" }
+  | _, _ => none
+
+def parseD (tk : List String) : Option D :=
+  let (gt, rest) := takeUntil ["V"] tk
+  match parseGraph gt, rest with
+  | some (g, _), ["V", v, "R", r] => some { g := g, valid := v == "1", rooted := r == "1" }
+  | _, _ => none
+
+def parseTW (tk : List String) : Option TW :=
+  let (wt, rest) := takeUntil ["V"] tk
+  match parseWorld wt, rest with
+  | some w, ["V", v] => some { w := w, valid := v == "1" }
   | _, _ => none
 
 def showR {α : Type} (f : α → String) : TRes α → String
@@ -36,58 +70,9 @@ def showR {α : Type} (f : α → String) : TRes α → String
   | .fuel => "diverges"
   | .ub => "ub"
 
-/-! ### the reference rooted tree: a parent function read off the edge triples -/
-
-structure Ref where
-  root : Nat
-  nodes : List Nat
-  /-- (child, parent, edge) -/
-  up : List (Nat × Nat × Nat)
-
-def Ref.parent (r : Ref) (n : Nat) : Option Nat := (r.up.find? (fun t => t.1 = n)).map (·.2.1)
-def Ref.children (r : Ref) (n : Nat) : List Nat := (r.up.filter (fun t => t.2.1 = n)).map (·.1)
-
-/-- ancestors of `n`, itself first, up to the root -/
-def Ref.line (r : Ref) : Nat → Nat → List Nat
-  | 0, n => [n]
-  | fuel + 1, n => match r.parent n with | some p => n :: r.line fuel p | none => [n]
-
-/-- the graph is a rooted tree in the graph-theoretic sense: directed, the root is a node without
-incoming edge, every other node has exactly one incoming edge, and every node reaches the root -/
-def refOf (g : G) : Option Ref :=
-  if !g.directed || !g.hasNode g.root then none
-  else
-    let up := g.edges.map (fun p => (p.2.2, p.2.1, p.1))
-    let nodes := AL.keys g.nodes
-    let r : Ref := { root := g.root, nodes := nodes, up := up }
-    let oneParent := nodes.all (fun n => (up.filter (fun t => t.1 = n)).length == (if n = g.root then 0 else 1))
-    let reach := nodes.all (fun n => (r.line nodes.length n).getLast? == some g.root)
-    if oneParent && reach then some r else none
-
-def Ref.leavesUnder (r : Ref) : Nat → Nat → List Nat
-  | 0, n => [n]
-  | fuel + 1, n =>
-    let cs := r.children n
-    if cs.isEmpty then [n] else cs.flatMap (r.leavesUnder fuel)
-
-def Ref.subtree (r : Ref) : Nat → Nat → List Nat
-  | 0, n => [n]
-  | fuel + 1, n => n :: (r.children n).flatMap (r.subtree fuel)
-
-/-- deepest common ancestor (a node is an ancestor of itself) -/
-def Ref.mrca (r : Ref) (l : List Nat) : Option Nat :=
-  match l with
-  | [] => none
-  | x :: rest =>
-    let lines := rest.map (r.line r.nodes.length)
-    (r.line r.nodes.length x).find? (fun a => lines.all (fun ln => ln.contains a))
-
-def Ref.path (r : Ref) (a b : Nat) : Option (List Nat) :=
-  let la := r.line r.nodes.length a
-  let lb := r.line r.nodes.length b
-  match la.find? (fun x => lb.contains x) with
-  | some m => some (la.takeWhile (· ≠ m) ++ [m] ++ (lb.takeWhile (· ≠ m)).reverse)
-  | none => none
+def gres {α : Type} (f : α → String) : GOut α → String
+  | .ok a _ => f a
+  | .exc _ => "exc:bpp"
 
 /-- does climbing by single fathers from `n` run into a cycle? (such calls are not exercised:
 the harness answers `skip-cycle` without calling) -/
@@ -96,201 +81,421 @@ def climbCycles (g : G) (n : Nat) : Bool :=
   | .fuel => true
   | _ => false
 
-/-! ### one step -/
+/-- the implementation's result tokens and state tokens -/
+def splitImpl (impl : Option (List String)) : Option (List String × List String) :=
+  match impl with
+  | some tk => match splitTok ";" tk with | [r, s] => some (r, s) | _ => none
+  | none => none
 
-def judge (st : St) (impl : Option (List String)) (want : Option String) (clause : String) (isValidQuery : Bool) : String × Option T :=
+def natsOf (tk : List String) : List Nat := tk.filterMap String.toNat?
+
+/-! ### tree mode -/
+
+/-- invariants of every report of the tree container; `extra` judges the result on the parsed report -/
+def judgeT (impl : Option (List String)) (isValidQuery : Bool) (extra : List String → T → Option String) : String × Option T :=
   match impl with
   | none => ("-", none)
-  | some tk =>
-    match splitTok ";" tk with
-    | [res, stt] =>
+  | some ["hang"] => ("FAIL:terminates", none)
+  | some [c] => if c.startsWith "crash:" then ("FAIL:no_crash", none) else ("FAIL:parse", none)
+  | some _ =>
+    match splitImpl impl with
+    | some (res, stt) =>
       match parseT stt with
       | some ti =>
-        let res := " ".intercalate res
         let treeNow := T.isTree ti.g
+        let resS := " ".intercalate res
         let v :=
           match ti.g.check with
           | some c => "FAIL:consistent:" ++ c
           | none =>
             if ti.valid && treeNow != .ok true then "FAIL:cache_sound"
-            else if isValidQuery && res != showR showBool treeNow then "FAIL:valid_answer"
-            else if (match want with | some w => res != C14.norm w | none => false) then "FAIL:" ++ clause
-            else "ok"
+            else if isValidQuery && resS != showR showBool treeNow then "FAIL:valid_answer"
+            else if isValidQuery && (resS == "1" || resS == "0") && resS != showBool (isTreeRef ti.g) then "FAIL:valid_iff"
+            else match extra res ti with
+              | some c => "FAIL:" ++ c
+              | none => "ok"
         (v, some ti)
       | none => ("FAIL:parse", none)
-    | _ => ("FAIL:parse", none)
+    | none => ("FAIL:parse", none)
 
-def finish (st : St) (res : String) (t' : T) (jv : String × Option T) : St × String × String :=
+def finishT (st : St) (res : String) (t' : T) (jv : String × Option T) : St × String × String :=
   let prev := match jv.2 with | some ti => some ti | none => st.prev
-  ({ t := t', prev := prev }, res ++ " ; " ++ showT t', jv.1)
+  ({ st with t := t', prev := prev }, res ++ " ; " ++ showT t', jv.1)
 
-def gres {α : Type} (f : α → String) : GOut α → String
-  | .ok a _ => f a
-  | .exc _ => "exc:bpp"
+/-- a list answer `l a b c` judged by a predicate of the reference tree, when the reported graph is
+a valid rooted tree and the queried nodes are in it -/
+def listSpec (nodes : List Nat) (p : Ref → List Nat → Bool) (clause : String) (res : List String) (ti : T) : Option String :=
+  match refOf ti.g with
+  | some r =>
+    if nodes.all r.nodes.contains then
+      match res with
+      | "l" :: l => if p r (natsOf l) then none else some clause
+      | _ => some clause
+    else none
+  | none => none
 
-def step2 (st : St) (op : List String) (impl : Option (List String)) : St × String × String :=
-  let nat (s : String) : Nat := s.toNat?.getD 0
-  let t := st.t
-  let g := t.g
-  let query (res : String) (t' : T) (want : Option String) (clause : String) :=
-    finish st res t' (judge st impl want clause false)
-  match op with
-  | ["t.path", a, b, inc] =>
-    let r := T.nodePath g (nat a) (nat b) (nat inc != 0)
-    let want := match refOf g with
-      | some rf => if rf.nodes.contains (nat a) && rf.nodes.contains (nat b) && nat inc != 0 then (rf.path (nat a) (nat b)).map (fun l => "l " ++ showNats l) else none
-      | none => none
-    query (showR (fun l => "l " ++ showNats l) r) t want "tree_spec"
-  | ["t.epath", a, b] =>
-    let r := T.edgePath g (nat a) (nat b)
-    let want := match refOf g with
-      | some rf => if rf.nodes.contains (nat a) && rf.nodes.contains (nat b) then
-          (rf.path (nat a) (nat b)).map (fun l =>
-            let es := (l.zip l.tail).filterMap (fun q => (rf.up.find? (fun t => (t.1 = q.1 ∧ t.2.1 = q.2) ∨ (t.1 = q.2 ∧ t.2.1 = q.1))).map (·.2.2))
-            "l " ++ showNats es)
-        else none
-      | none => none
-    query (showR (fun l => "l " ++ showNats l) r) t want "tree_spec"
-  | "t.mrca" :: ns =>
-    let l := ns.map nat
-    let r := T.mrca g l
-    let want := match refOf g with
-      | some rf => if l.all rf.nodes.contains then (rf.mrca l).map toString else none
-      | none => none
-    query (showR toString r) t want "mrca_spec"
-  | _ => (st, "bad-op", "-")
-
-def step (st : St) (op : List String) (impl : Option (List String)) : St × String × String :=
+def stepT (st : St) (op : List String) (impl : Option (List String)) : St × String × String :=
   let nat (s : String) : Nat := s.toNat?.getD 0
   let okS (_ : Unit) := "ok"
   let t := st.t
   let g := t.g
   let fuel := g.nodes.length + 2
-  -- a mutator: no reference answer beyond the invariants
-  let mutr {α : Type} (r : GOut α × T) (f : α → String) := finish st (gres f r.1) r.2 (judge st impl none "" false)
-  -- a structural query: the reference answer when the graph is a valid rooted tree
-  let query (res : String) (t' : T) (want : Option String) (clause : String) :=
-    finish st res t' (judge st impl want clause false)
+  let none2 : List String → T → Option String := fun _ _ => none
+  let mutr {α : Type} (r : GOut α × T) (f : α → String) := finishT st (gres f r.1) r.2 (judgeT impl false none2)
+  let showL (l : List Nat) := "l " ++ showNats l
   match op with
   | ["t.createNode"] => mutr t.createNode toString
   | ["t.link", a, b] => mutr (t.link (nat a) (nat b)) toString
+  | ["t.linkE", a, b, e] => mutr (t.linkE (nat a) (nat b) (nat e)) okS
   | ["t.unlink", a, b] => mutr (t.unlink (nat a) (nat b)) showNats
   | ["t.deleteNode", n] => mutr (t.deleteNode (nat n)) okS
   | ["t.setRoot", n] => mutr (t.setRoot (nat n)) okS
   | ["t.makeDirected"] => mutr (GOut.ok () t.makeDirected.g, t.makeDirected) okS
   | ["t.makeUndirected"] => mutr t.makeUndirected okS
   | ["t.setFather", n, f] => mutr (t.setFather (nat n) (nat f)) okS
+  | ["t.setFatherE", n, f, e] => mutr (t.setFatherE (nat n) (nat f) (nat e)) okS
   | ["t.addSon", n, s] => mutr (t.addSon (nat n) (nat s)) okS
+  | ["t.addSonE", n, s, e] => mutr (t.addSonE (nat n) (nat s) (nat e)) okS
   | ["t.removeSon", n, s] => mutr (t.removeSon (nat n) (nat s)) okS
+  | ["t.removeSons", n] => mutr (t.removeSons (nat n)) showL
+  | ["t.unRoot", j] => mutr (t.unRoot (nat j != 0)) okS
   | ["t.rootAt", n] =>
     -- re-rooting specification, judged on the implementation's reports before and after
     let undirectedEdges (g : G) := g.edges.map (fun p => (p.1, min p.2.1 p.2.2, max p.2.1 p.2.2))
-    let spec : String × Option T :=
-      let base := judge st impl none "" false
-      match st.prev, base.2, impl with
-      | some p, some ti, some tk =>
-        if base.1 != "ok" then base
-        else if T.isTree p.g == .ok true && p.g.hasNode (nat n) then
-          let res := match splitTok ";" tk with | [r, _] => " ".intercalate r | _ => ""
-          if res != "ok" || T.isTree ti.g != .ok true || ti.g.root != nat n || !ti.g.directed
+    let prev := st.prev
+    let spec : List String → T → Option String := fun res ti =>
+      match prev with
+      | some p =>
+        if T.isTree p.g == .ok true && p.g.hasNode (nat n) then
+          if res != ["ok"] || T.isTree ti.g != .ok true || !isRootedTree ti.g || ti.g.root != nat n || !ti.g.directed
              || undirectedEdges ti.g != undirectedEdges p.g || AL.keys ti.g.nodes != AL.keys p.g.nodes
-          then ("FAIL:rootAt_spec", base.2) else base
-        else base
-      | _, _, _ => base
+             || (AL.keys ti.g.nodes).any (fun x => x != nat n && T.hasFather ti.g x != some true)
+             || T.hasFather ti.g (nat n) != some false
+          then some "rootAt_spec" else none
+        else none
+      | none => none
     match t.rootAt (nat n) with
-    | .ok r => finish st (gres okS r.1) r.2 spec
-    | .fuel => finish st "diverges" t (judge st impl none "" false)
-    | .exc => finish st "exc:bpp" t (judge st impl none "" false)
-    | .ub => finish st "ub" t (judge st impl none "" false)
-  | ["t.unRoot", j] => mutr (t.unRoot (nat j != 0)) okS
+    | .ok r => finishT st (gres okS r.1) r.2 (judgeT impl false spec)
+    | .fuel => finishT st "diverges" t (judgeT impl false none2)
+    | .exc => finishT st "exc:bpp" t (judgeT impl false none2)
+    | .ub => finishT st "ub" t (judgeT impl false none2)
   | ["t.valid"] =>
     let (r, t') := t.isValid
-    finish st (showR showBool r) t' (judge st impl none "" true)
-  | ["t.rooted"] => query (showBool g.directed) t none ""
+    finishT st (showR showBool r) t' (judgeT impl true none2)
+  | ["t.rooted"] => finishT st (showBool g.directed) t (judgeT impl false none2)
   | ["t.qn", n] =>
     let n := nat n
     let o (x : Option String) := showOpt x
     let res := s!"hf {o ((T.hasFather g n).map showBool)} fa {o ((T.father g n).map toString)} ef {o ((T.edgeToFather g n).map toString)} " ++
       s!"sons {o ((g.outNeighbors n).map showNats)} br {o ((g.outEdges n).map showNats)} " ++
       s!"ns {o ((RowQ.nbOut (g.rowOf n)).map toString)} lf {o ((T.isLeafT g n).map showBool)}"
-    -- reference: father / sons / leaf from the parent function, when the reported graph is a rooted tree
-    let want := fun (gi : G) => match refOf gi with
-      | some r => if r.nodes.contains n then
+    -- father / sons / branches / leaf against the parent function of the reported edge table
+    let spec : List String → T → Option String := fun res ti =>
+      match refOf ti.g with
+      | some r =>
+        if r.nodes.contains n then
+          let (a, r1) := takeUntil ["sons"] res
+          let (sons, r2) := takeUntil ["br"] (r1.drop 1)
+          let (br, r3) := takeUntil ["ns"] (r2.drop 1)
           let cs := r.children n
-          let ef := (r.up.find? (fun t => t.1 = n)).map (·.2.2)
-          some (s!"hf {showBool (r.parent n).isSome} fa {o ((r.parent n).map toString)} ef {o (ef.map toString)} " ++
-            s!"sons {showNats cs} br {showNats ((r.up.filter (fun t => t.2.1 = n)).map (·.2.2))} ns {cs.length} lf {showBool cs.isEmpty}")
+          let wantA := ["hf", showBool (r.parent n).isSome, "fa", o ((r.parent n).map toString), "ef", o ((r.edgeUp n).map toString)]
+          let wantC := ["ns", toString cs.length, "lf", showBool cs.isEmpty]
+          if a != wantA || r3 != wantC || !(natsOf sons).isPerm cs || !(natsOf br).isPerm (r.branches n)
+             || (natsOf sons).zip (natsOf br) != ((natsOf sons).map (fun c => (c, (r.edgeUp c).getD 0)))
+          then some "tree_spec" else none
         else none
       | none => none
-    -- children must be compared in the implementation's order (ascending id): the edge table is ascending
-    -- in edge id, not in child id, so sort the reference lists through the model's own order when they agree as sets
-    let wantStr := match impl with
-      | some tk => match splitTok ";" tk with
-        | [_, stt] => (parseT stt).bind (fun ti => want ti.g)
-        | _ => none
-      | none => none
-    -- order-insensitive comparison for the two list fields is done by canonicalising both sides
-    let canon (s : String) : String :=
-      let ts := toks s
-      let (a, r1) := takeUntil ["sons"] ts
-      let (sons, r2) := takeUntil ["br"] (r1.drop 1)
-      let (br, r3) := takeUntil ["ns"] (r2.drop 1)
-      let srt (l : List String) := (l.filterMap String.toNat?).mergeSort
-      " ".intercalate a ++ " sons " ++ showNats (srt sons) ++ " br " ++ showNats (srt br) ++ " " ++ " ".intercalate r3
-    let jv := match wantStr, impl with
-      | some w, some tk =>
-        (match splitTok ";" tk with
-         | [r, _] => if canon (" ".intercalate r) != canon w then ("FAIL:tree_spec", (judge st impl none "" false).2) else judge st impl none "" false
-         | _ => judge st impl none "" false)
-      | _, _ => judge st impl none "" false
-    finish st res t jv
-  | ["t.leavesUnder", n] | ["t.subN", n] | ["t.subE", n] =>
-    let n := nat n
+    finishT st res t (judgeT impl false spec)
+  | ["t.subN", n] =>
+    let (r, t') := t.getSubtree false (nat n)
+    finishT st (showR showL r) t' (judgeT impl false (listSpec [nat n] (fun rf l => rf.isSubtree (nat n) l) "tree_spec"))
+  | ["t.subE", n] =>
+    let (r, t') := t.getSubtree true (nat n)
+    finishT st (showR showL r) t' (judgeT impl false (listSpec [nat n] (fun rf l => rf.isSubtreeEdges (nat n) l) "tree_spec"))
+  | ["t.leavesUnder", n] =>
     let (v, t') := t.isValid
     match v with
     | .ok true =>
-      if !t'.g.directed then finish st "unrooted" t' (judge st impl none "" false) else
-      let r := match op.head! with
-        | "t.leavesUnder" => T.leavesUnder t'.g fuel n []
-        | "t.subN" => T.subtreeNodes t'.g fuel n []
-        | _ => T.subtreeEdges t'.g fuel n []
-      let want := match impl with
-        | some tk => (match splitTok ";" tk with
-          | [_, stt] => (parseT stt).bind (fun ti => (refOf ti.g).bind (fun r =>
-              if !r.nodes.contains n then none
-              else match op.head! with
-                | "t.leavesUnder" => some ("l " ++ showNats (r.leavesUnder r.nodes.length n).mergeSort)
-                | "t.subN" => some ("l " ++ showNats (r.subtree r.nodes.length n).mergeSort)
-                | _ => some ("l " ++ showNats ((r.subtree r.nodes.length n).filterMap (fun c =>
-                        if c = n then none else (r.up.find? (fun t => t.1 = c)).map (·.2.2))).mergeSort)))
-          | _ => none)
-        | none => none
-      -- compare as sets (the traversal order is the implementation's); the exact order is tied by the model
-      let jv := match want, impl with
-        | some w, some tk =>
-          (match splitTok ";" tk with
-           | [rr, _] =>
-             let got := "l " ++ showNats ((rr.drop 1).filterMap String.toNat?).mergeSort
-             if got != w then ("FAIL:tree_spec", (judge st impl none "" false).2) else judge st impl none "" false
-           | _ => judge st impl none "" false)
-        | _, _ => judge st impl none "" false
-      finish st (showR (fun l => "l " ++ showNats l) r) t' jv
-    | .ok false => finish st "notvalid" t' (judge st impl none "" false)
-    | r => finish st (showR showBool r) t' (judge st impl none "" false)
-  | ["t.path", a, b, _] | ["t.epath", a, b] =>
+      if !t'.g.directed then finishT st "unrooted" t' (judgeT impl false none2) else
+      finishT st (showR showL (T.leavesUnder t'.g fuel (nat n) [])) t'
+        (judgeT impl false (listSpec [nat n] (fun rf l => rf.isLeavesUnder (nat n) l) "tree_spec"))
+    | .ok false => finishT st "notvalid" t' (judgeT impl false none2)
+    | r => finishT st (showR showBool r) t' (judgeT impl false none2)
+  | ["t.path", a, b, inc] =>
     if g.hasNode (nat a) && g.hasNode (nat b) && (climbCycles g (nat a) || climbCycles g (nat b)) then
-      finish st "skip-cycle" t (judge st impl none "" false)
-    else step2 st op impl
+      finishT st "skip-cycle" t (judgeT impl false none2)
+    else
+      let r := T.nodePath g (nat a) (nat b) (nat inc != 0)
+      -- without the common ancestor the answer is the path minus the most recent common ancestor
+      let spec := listSpec [nat a, nat b] (fun rf l =>
+        if nat inc != 0 then rf.isPath (nat a) (nat b) l
+        else rf.nodes.any (fun m => rf.isMrca [nat a, nat b] m && !l.contains m &&
+          (List.range (l.length + 1)).any (fun i => rf.isPath (nat a) (nat b) (l.take i ++ [m] ++ l.drop i)))) "tree_spec"
+      finishT st (showR showL r) t (judgeT impl false spec)
+  | ["t.epath", a, b] =>
+    if g.hasNode (nat a) && g.hasNode (nat b) && (climbCycles g (nat a) || climbCycles g (nat b)) then
+      finishT st "skip-cycle" t (judgeT impl false none2)
+    else
+      let r := T.edgePath g (nat a) (nat b)
+      -- the edges along the (unique) path: the path is recomputed on the reference from the two ancestor lines
+      let spec := listSpec [nat a, nat b] (fun rf l =>
+        rf.nodes.any (fun m => rf.isMrca [nat a, nat b] m &&
+          (let p := (rf.anc (nat a)).takeWhile (· != m) ++ [m] ++ ((rf.anc (nat b)).takeWhile (· != m)).reverse
+           rf.isPath (nat a) (nat b) p && rf.isEdgePath p l))) "tree_spec"
+      finishT st (showR showL r) t (judgeT impl false spec)
   | "t.mrca" :: ns =>
-    let l := (ns.map nat).eraseDups
-    if g.directed && ns.length > 1 && l.length > 1 && l.any (climbCycles g) then
-      finish st "skip-cycle" t (judge st impl none "" false)
-    else step2 st op impl
-  | _ => step2 st op impl
+    let l := ns.map nat
+    if g.directed && l.length > 1 && l.any (climbCycles g) then
+      finishT st "skip-cycle" t (judgeT impl false none2)
+    else
+      let r := T.mrca g l
+      let spec : List String → T → Option String := fun res ti =>
+        match refOf ti.g with
+        | some rf =>
+          if l.all rf.nodes.contains && !l.isEmpty then
+            match res with
+            | [m] => (match m.toNat? with | some m => if rf.isMrca l m then none else some "mrca_spec" | none => some "mrca_spec")
+            | _ => some "mrca_spec"
+          else none
+        | none => none
+      finishT st (showR toString r) t (judgeT impl false spec)
+  | _ => (st, "bad-op", "-")
+
+/-! ### DAG mode -/
+
+def judgeD (impl : Option (List String)) (isValidQuery : Bool) (extra : List String → D → Option String) : String × Option D :=
+  match impl with
+  | none => ("-", none)
+  | some ["hang"] => ("FAIL:terminates", none)
+  | some [c] => if c.startsWith "crash:" then ("FAIL:no_crash", none) else ("FAIL:parse", none)
+  | some _ =>
+    match splitImpl impl with
+    | some (res, stt) =>
+      match parseD stt with
+      | some di =>
+        let daNow := D.isDA di.g
+        let resS := " ".intercalate res
+        let v :=
+          match di.g.check with
+          | some c => "FAIL:consistent:" ++ c
+          | none =>
+            if di.valid && daNow != .ok true then "FAIL:cache_sound"
+            else if di.rooted && D.nbFatherless di.g != 1 then "FAIL:rooted_cache"
+            else if isValidQuery && resS != showR showBool daNow then "FAIL:valid_answer"
+            else if isValidQuery && (resS == "1" || resS == "0") && di.g.directed && resS != showBool (isAcyclicRef di.g) then "FAIL:valid_iff"
+            else match extra res di with
+              | some c => "FAIL:" ++ c
+              | none => "ok"
+        (v, some di)
+      | none => ("FAIL:parse", none)
+    | none => ("FAIL:parse", none)
+
+def finishD (st : St) (res : String) (d' : D) (jv : String × Option D) : St × String × String :=
+  ({ st with d := d' }, res ++ " ; " ++ showD d', jv.1)
+
+def stepD (st : St) (op : List String) (impl : Option (List String)) : St × String × String :=
+  let nat (s : String) : Nat := s.toNat?.getD 0
+  let okS (_ : Unit) := "ok"
+  let d := st.d
+  let g := d.g
+  let none2 : List String → D → Option String := fun _ _ => none
+  let mutr {α : Type} (r : GOut α × D) (f : α → String) := finishD st (gres f r.1) r.2 (judgeD impl false none2)
+  let showL (l : List Nat) := "l " ++ showNats l
+  match op with
+  | ["d.createNode"] => mutr d.createNode toString
+  | ["d.link", a, b] => mutr (d.link (nat a) (nat b)) toString
+  | ["d.linkE", a, b, e] => mutr (d.linkE (nat a) (nat b) (nat e)) okS
+  | ["d.unlink", a, b] => mutr (d.unlink (nat a) (nat b)) showNats
+  | ["d.deleteNode", n] => mutr (d.deleteNode (nat n)) okS
+  | ["d.setRoot", n] => mutr (d.setRoot (nat n)) okS
+  | ["d.addSon", n, s] => mutr (d.addSon (nat n) (nat s)) okS
+  | ["d.addSonE", n, s, e] => mutr (d.addSonE (nat n) (nat s) (nat e)) okS
+  | ["d.addFather", n, f] => mutr (d.addFather (nat n) (nat f)) okS
+  | ["d.addFatherE", n, f, e] => mutr (d.addFatherE (nat n) (nat f) (nat e)) okS
+  | ["d.removeSon", n, s] => mutr (d.removeSon (nat n) (nat s)) okS
+  | ["d.removeFather", n, f] => mutr (d.removeFather (nat n) (nat f)) okS
+  | ["d.removeSons", n] => mutr (d.removeSons (nat n)) showL
+  | ["d.removeFathers", n] => mutr (d.removeFathers (nat n)) showL
+  | ["d.valid"] =>
+    let (r, d') := d.isValid
+    finishD st (showR showBool r) d' (judgeD impl true none2)
+  | ["d.rooted"] =>
+    let (r, d') := d.isRooted
+    -- the answer: true iff at most one node of the reported graph has no father
+    let spec : List String → D → Option String := fun res di =>
+      if res != [showBool (decide (D.nbFatherless di.g ≤ 1))] then some "rooted_answer" else none
+    finishD st (showBool r) d' (judgeD impl false spec)
+  | ["d.belowN", n] =>
+    let (r, d') := d.getBelow false (nat n)
+    finishD st (showR showL r) d' (judgeD impl false none2)
+  | ["d.belowE", n] =>
+    let (r, d') := d.getBelow true (nat n)
+    finishD st (showR showL r) d' (judgeD impl false none2)
+  | ["d.leavesUnder", n] =>
+    let (v, d') := d.isValid
+    match v with
+    | .ok true => finishD st (showR showL (D.leavesUnder d'.g (d'.g.nodes.length + 2) (nat n) [])) d' (judgeD impl false none2)
+    | .ok false => finishD st "notvalid" d' (judgeD impl false none2)
+    | r => finishD st (showR showBool r) d' (judgeD impl false none2)
+  | ["d.qn", n] =>
+    let n := nat n
+    let o (x : Option String) := showOpt x
+    let res := s!"hf {o ((T.hasFather g n).map showBool)} fa {o ((g.inNeighbors n).map showNats)} nf {o ((RowQ.nbIn (g.rowOf n)).map toString)} " ++
+      s!"sons {o ((g.outNeighbors n).map showNats)} ns {o ((RowQ.nbOut (g.rowOf n)).map toString)} lf {o ((g.isLeaf n).map showBool)}"
+    -- fathers and sons against the edge table of the report
+    let spec : List String → D → Option String := fun res di =>
+      if di.g.hasNode n then
+        let (_, r1) := takeUntil ["fa"] res
+        let (fa, r2) := takeUntil ["nf"] (r1.drop 1)
+        let (_, r3) := takeUntil ["sons"] r2
+        let (sons, _) := takeUntil ["ns"] (r3.drop 1)
+        let tops := (di.g.edges.filter (fun p => p.2.2 == n)).map (·.2.1)
+        let bots := (di.g.edges.filter (fun p => p.2.1 == n)).map (·.2.2)
+        if !(natsOf fa).isPerm tops || !(natsOf sons).isPerm bots then some "dag_query" else none
+      else none
+    finishD st res d (judgeD impl false spec)
+  | _ => (st, "bad-op", "-")
+
+/-! ### tree observer mode -/
+
+def showW : TW.WRes → String
+  | .ok => "ok"
+  | .exc .bpp => "exc:bpp"
+  | .exc .std => "exc:std"
+  | .ub => "ub"
+
+def judgeW (impl : Option (List String)) (isValidQuery : Bool) (extra : List String → TW → Option String) : String × Option TW :=
+  match impl with
+  | none => ("-", none)
+  | some ["hang"] => ("FAIL:terminates", none)
+  | some [c] => if c.startsWith "crash:" then ("FAIL:no_crash", none) else ("FAIL:parse", none)
+  | some _ =>
+    match splitImpl impl with
+    | some (res, stt) =>
+      match parseTW stt with
+      | some wi =>
+        let treeNow := T.isTree wi.w.g
+        let resS := " ".intercalate res
+        let v :=
+          match wi.w.g.check with
+          | some c => "FAIL:consistent:" ++ c
+          | none =>
+            match (wi.w.getObs 0).bind (fun o => o.check wi.w.g) with
+            | some c => "FAIL:keeps_object:obs:" ++ c
+            | none =>
+              if wi.valid && treeNow != .ok true then "FAIL:cache_sound"
+              else if isValidQuery && resS != showR showBool treeNow then "FAIL:valid_answer"
+              else match extra res wi with
+                | some c => "FAIL:" ++ c
+                | none => "ok"
+        (v, some wi)
+      | none => ("FAIL:parse", none)
+    | none => ("FAIL:parse", none)
+
+def finishW (st : St) (res : String) (tw' : TW) (jv : String × Option TW) : St × String × String :=
+  let prev := match jv.2 with | some wi => some wi | none => st.prevW
+  ({ st with tw := tw', prevW := prev }, res ++ " ; " ++ showTW tw', jv.1)
+
+/-- `setFather` through the observer: the object is the one of the new link; the other associations
+are the ones of before, minus the branch to the former father -/
+def setFatherW (st : St) (impl : Option (List String)) (a f : Obj) (x : Option Obj) : St × String × String :=
+  let tw := st.tw
+  let prev := st.prevW
+  let extra : List String → TW → Option String := fun res wi =>
+    match x, wi.w.getObs 0 with
+    | some x', some o =>
+      -- an object attached to another branch is refused and nothing changes
+      if (match prev with | some p => p.setFatherForeign 0 a x' && (res != ["exc:bpp"] || wi.w != p.w || wi.valid != p.valid) | none => false)
+      then some "keeps_object" else
+      if res == ["ok"] && World.edgeLinking wi.w o f a != some (some x') then some "keeps_object" else
+      (match prev with
+       | some p =>
+         (match p.w.getObs 0 with
+          | some po =>
+            if res == ["ok"] && po.Ng != o.Ng then some "keeps_object" else
+            if res == ["ok"] && po.Eg.any (fun q => wi.w.g.hasEdge q.2 && q.1 != x' && AL.find q.1 o.Eg != some q.2) then some "keeps_object" else none
+          | none => none)
+       | none => none)
+    | _, _ => none
+  let r := tw.setFather 0 a f x
+  finishW st (showW r.1) r.2 (judgeW impl false extra)
+
+def stepW (st : St) (op : List String) (impl : Option (List String)) : St × String × String :=
+  let nat (s : String) : Nat := s.toNat?.getD 0
+  let tw := st.tw
+  let none2 : List String → TW → Option String := fun _ _ => none
+  let mutr (r : TW.WRes × TW) (extra : List String → TW → Option String) := finishW st (showW r.1) r.2 (judgeW impl false extra)
+  -- after a successful call with an edge object `x`: the object is the one of the link father -> son
+  let keeps (f s : Obj) (x : Option Obj) : List String → TW → Option String := fun res wi =>
+    match x, wi.w.getObs 0 with
+    | some x, some o =>
+      if res == ["ok"] && World.edgeLinking wi.w o f s != some (some x) then some "keeps_object" else none
+    | _, _ => none
+  match op with
+  | ["o.createNode", a] => mutr (tw.createNode 0 (nat a)) none2
+  | ["o.link", a, b, x] => mutr (tw.link 0 (nat a) (nat b) (optObj x)) (keeps (nat a) (nat b) (optObj x))
+  | ["o.unlink", a, b] => mutr (tw.unlink 0 (nat a) (nat b)) none2
+  | ["o.deleteNode", a] => mutr (tw.deleteNode 0 (nat a)) none2
+  | ["o.addSon", a, s, x] =>
+    let prev := st.prevW
+    -- with an edge object and everything it needs (judged on the implementation's previous report) the call must go through
+    let extra : List String → TW → Option String := fun res wi =>
+      match keeps (nat a) (nat s) (optObj x) res wi with
+      | some c => some c
+      | none =>
+        match prev, optObj x with
+        | some p, some x' => if p.addSonReady 0 (nat a) (nat s) x' && res != ["ok"] then some "keeps_object" else none
+        | _, _ => none
+    mutr (tw.addSon 0 (nat a) (nat s) (optObj x)) extra
+  | ["o.setFatherCur", a, f] =>
+    -- with the object of the branch to the current father (none: without object)
+    let x : Option Obj := match tw.w.getObs 0 with
+      | some ob => (tw.edgeToFather ob (nat a)).join
+      | none => none
+    setFatherW st impl (nat a) (nat f) x
+  | ["o.setFather", a, f, x] => setFatherW st impl (nat a) (nat f) (optObj x)
+  | ["o.rootAt", a] =>
+    let prev := st.prevW
+    -- re-rooting changes no association
+    let extra : List String → TW → Option String := fun _ wi =>
+      match prev with
+      | some p => if p.w.obs != wi.w.obs then some "keeps_object" else none
+      | none => none
+    match tw.rootAt 0 (nat a) with
+    | .ok r => finishW st (showW r.1) r.2 (judgeW impl false extra)
+    | .fuel => finishW st "diverges" tw (judgeW impl false none2)
+    | .exc => finishW st "exc:bpp" tw (judgeW impl false none2)
+    | .ub => finishW st "ub" tw (judgeW impl false none2)
+  | ["o.valid"] =>
+    let (r, tw') := tw.isValid
+    finishW st (showR showBool r) tw' (judgeW impl true none2)
+  | ["o.qn", a] =>
+    let o (x : Option String) := showOpt x
+    let res := match tw.w.getObs 0 with
+      | some ob =>
+        s!"fa {o ((tw.fatherOf ob (nat a)).map showOO)} ef {o ((tw.edgeToFather ob (nat a)).map showOO)} " ++
+        s!"sons {o ((World.nodeQuery tw.w ob (nat a) (fun g n => g.outNeighbors n) false).map showObjs)} " ++
+        s!"br {o ((World.nodeQuery tw.w ob (nat a) (fun g n => g.outEdges n) true).map showObjs)}"
+      | none => "ub"
+    finishW st res tw (judgeW impl false none2)
+  | ["o.qp", a, b] =>
+    let res := match tw.w.getObs 0 with
+      | some ob => "linking " ++ showOpt ((World.edgeLinking tw.w ob (nat a) (nat b)).map showOO)
+      | none => "ub"
+    finishW st res tw (judgeW impl false none2)
+  | _ => (st, "bad-op", "-")
+
+def step (st : St) (op : List String) (impl : Option (List String)) : St × String × String :=
+  match op with
+  | o :: _ =>
+    if o.startsWith "d." then stepD st op impl
+    else if o.startsWith "o." then stepW st op impl
+    else stepT st op impl
+  | [] => (st, "bad-op", "-")
 
 def init (tk : List String) : St :=
-  let d := !(tk.length > 1 && tk[1]! == "undir")
-  { t := T.empty d, prev := none }
+  let kind := tk[1]?.getD "dir"
+  { t := T.empty (kind != "undir"), d := D.empty, tw := TW.init (kind != "obsundir"), prev := none, prevW := none }
 
 def machine : Machine St := { init := init, step := step }
 
